@@ -3,6 +3,7 @@ import json
 import os
 import sqlite3
 import threading
+import time
 
 from .. import core, gen, hooks, insitu, rng as vrng, sched, sqlproxy
 from ..hooks import Patches
@@ -27,7 +28,7 @@ def cases(ctx):
     pol = sched.Scheduler.POLICIES
     for i in range(ctx.pick(96, 9600)):
         yield "gated", {"seed": ctx.subseed("g", i), "policy": pol[i % len(pol)], "store": ["dummy", "sqlite", "sqlite"][i % 3],
-                        "gates": ["obj", "obj+sync", "obj+sync+sql", "sync+sql"][(i // 3) % 4]}
+                        "gates": ["obj", "obj+sync", "obj+sync+sql", "sync+sql", "sync+slowtxn"][(i // 3) % 5]}
     for i in range(ctx.pick(24, 3300)):
         yield "lines", {"seed": ctx.subseed("l", i), "store": ["dummy", "sqlite"][i % 2]}
     for i in range(ctx.pick(12, 960)):
@@ -114,9 +115,18 @@ def run_case(ctx, name, params):
         try:
             if use_db:
                 if S is not None:
+                    slow = random_slow = ctx.rng("slow", params["seed"])
+
                     def on_event(nr, kind, sql):
                         if "sql" in gates and kind != "connect":
                             S.gate("sql:" + kind, bounded=True)
+                        if "slowtxn" in gates and kind == "commit:before":
+                            # a slow holder: the write lock is kept for many busy time-outs of the other workers
+                            with lk:
+                                go = slow.random() < 0.4
+                            if go:
+                                ctx.count("slow_transactions_injected")
+                                time.sleep(0.4)
                     proxy = sqlproxy.Proxy(on_event=on_event, timeout=0.05)
                 else:
                     proxy = sqlproxy.Proxy(timeout=0.05)
